@@ -31,6 +31,9 @@ pub broadcast axiom fn axiom_arc_string_key_model()
 pub assume_specification<T: ?Sized, A: Allocator>[ <Arc<T, A> as AsRef<T>>::as_ref ](a: &Arc<T, A>) -> (r: &T)
     ensures r == &**a;
 
+pub assume_specification<T: ?Sized, A: Allocator>[ <Box<T, A> as AsRef<T>>::as_ref ](a: &Box<T, A>) -> (r: &T)
+    ensures r == &**a;
+
 /// `ToOwned for T: Clone` is defined in std as `self.clone()` / `*target = self.clone()`
 pub assume_specification<T: Clone>[ <T as std::borrow::ToOwned>::to_owned ](x: &T) -> (r: T)
     ensures cloned::<T>(*x, r);
@@ -69,6 +72,12 @@ pub assume_specification<T: ?Sized + PartialEq, A: Allocator>[ <Arc<T, A> as Par
 pub assume_specification<T: ?Sized + PartialEq, A: Allocator>[ <Arc<T, A> as PartialEq>::eq ](a: &Arc<T, A>, b: &Arc<T, A>) -> (r: bool)
     ensures r == pointee_eq::<T>(&**a, &**b);
 
+/// Arc::clone returns a handle to the same value (vstd specifies `Arc::clone` itself this way; this lifts it to `cloned`, which is
+/// what `Option<Arc<T>>::clone` is specified with)
+pub broadcast axiom fn axiom_arc_cloned<T>(a: Arc<T>, b: Arc<T>)
+    requires #[trigger] cloned::<Arc<T>>(a, b)
+    ensures a == b;
+
 /// a str / String is determined by its characters
 pub broadcast axiom fn axiom_str_view_injective(a: &str, b: &str)
     ensures (#[trigger] a@ == #[trigger] b@) ==> a == b;
@@ -82,6 +91,7 @@ pub broadcast group group_std_extra {
     axiom_string_view_injective,
     axiom_string_key_model,
     axiom_pointee_eq_string,
+    axiom_arc_cloned,
 }
 
 } // verus!
